@@ -48,6 +48,13 @@ def gen_world(rng, chans=None, sync_mask=None):
         cfg.add(S.domain(0x2210, i, w, d, flags=RW | P))
         if sync_mask is None:
             pool.append((0x2210, i, w))
+    # mapped objects of a size no basic type has (UNSIGNED24 as user type): handed to the application like the large ones
+    for i in range(2):
+        v = rng.getrandbits(24)
+        objs[(0x2220, i)] = [3, v]
+        cfg.add(S.Obj(0x2220, i, RW | P, "usr", "U", 3, 0, 0, 0, v))
+        if sync_mask is None:
+            pool.append((0x2220, i, 3))
     if chans is None:
         chans = [c for c in range(4) if rng.random() < 0.65] or [rng.randrange(4)]
     rps = []
@@ -125,7 +132,11 @@ def run_history(res, exe, rng, first, chans=None, sync_mask=None):
         d = sim.dump()
         for k, tok, b in zip(order, d, base):
             if k in objs:
-                if (int(tok, 16) if objs[k][0] <= 4 else int.from_bytes(bytes.fromhex(tok), "little")) != objs[k][1]:
+                if k[0] == 0x2220:
+                    have = int.from_bytes(bytes.fromhex(tok)[:3], "little")
+                else:
+                    have = int(tok, 16) if objs[k][0] <= 4 else int.from_bytes(bytes.fromhex(tok), "little")
+                if have != objs[k][1]:
                     return fail("storage/mapped-object", "object %04x:%d holds %s, reference %x" % (k[0], k[1], tok, objs[k][1]), "%x" % objs[k][1], tok)
             elif tok != b:
                 return fail("storage/other-object", "object %04x:%d changed from %s to %s" % (k[0], k[1], b, tok))
@@ -168,7 +179,7 @@ def run_history(res, exe, rng, first, chans=None, sync_mask=None):
                 if check(evs, 0, ws) is not True:
                     return
             elif x < 0.72:
-                k = rng.choice([k_ for k_ in objs if objs[k_][0] <= 4])
+                k = rng.choice([k_ for k_ in objs if objs[k_][0] in (1, 2, 4)])
                 w = objs[k][0]
                 v = rng.getrandbits(8 * w)
                 script.append("local write %04x:%d = %x" % (k[0], k[1], v))
